@@ -354,13 +354,14 @@ def load_known():
 class Check:
     """accumulates the outcome of one check run and renders verdict + evidence"""
 
-    def __init__(self, pid, tier, seed):
+    def __init__(self, pid, tier, seed, keep_replays=False):
         self.pid = pid
         self.tier = tier
         self.seed = seed
         self.t0 = time.time()
-        for old in glob.glob(os.path.join(VERIF, "replay", "%s-%d-*.json" % (pid, seed))):
-            os.remove(old)
+        if not keep_replays:
+            for old in glob.glob(os.path.join(VERIF, "replay", "%s-%d-*.json" % (pid, seed))):
+                os.remove(old)
         self.failures = []      # dicts: site, cls, what, case(replay content)
         self.obl_broken = []    # names of theorems / correspondences that no longer check
         self.cov = {"evaluations": 0, "distinct_nontrivial": 0, "rule": "", "samples": [],
@@ -431,6 +432,26 @@ class Check:
         return r
 
     # -- verdict
+    def finish_replay(self, rp, path):
+        """replay mode: the generators are deterministic in (seed, tier), so the recorded input is
+        regenerated by re-running the check with the recorded seed and tier on the CURRENT tree;
+        reports whether the recorded failure recurs. Writes neither evidence nor replay files."""
+        if rp.get("kind") == "obligation":
+            names = {b.get("name") for b in rp.get("broken", [])}
+            again = [b for b in self.obl_broken if b.get("name") in names]
+            hit = bool(again) or bool(self.obl_broken)
+            what = "; ".join(b.get("name", "?") for b in (again or self.obl_broken))
+        else:
+            again = [f for f in self.failures if f["site"] == rp.get("site") and f["class"] == rp.get("class")]
+            hit = bool(again)
+            what = again[0]["what"] if again else ""
+        if hit:
+            print("REPRODUCED: %s" % what[:300])
+            print("VIOLATION property=%s replay=%s%s" % (self.pid, path, " no-failing-input-found" if rp.get("kind") == "obligation" else ""))
+            return 1
+        print("NOT REPRODUCED on the current tree: %s/%s (seed %s, tier %s)" % (rp.get("site"), rp.get("class"), rp.get("seed"), rp.get("tier")))
+        return 0
+
     def finish(self):
         known = [k for k in load_known() if k["property"] == self.pid and k["status"] == "known"]
         lines = []
@@ -461,14 +482,14 @@ class Check:
                 done.add(kk)
                 p = os.path.join(VERIF, "replay", "%s-%d-%d.json" % (self.pid, self.seed, len(done)))
                 json.dump({"property": self.pid, "kind": "input", "site": f["site"], "class": f["class"],
-                           "what": f["what"], "case": f["case"],
+                           "what": f["what"], "case": f["case"], "seed": self.seed, "tier": self.tier,
                            "cmd": "./check %s --replay %s" % (self.pid, p)}, open(p, "w"), indent=1, default=str)
                 lines.append("VIOLATION property=%s replay=%s" % (self.pid, p))
             rc = 1
         unexplained = list(self.obl_broken)
         if unexplained and not viol:
             p = os.path.join(VERIF, "replay", "%s-%d-obligation.json" % (self.pid, self.seed))
-            json.dump({"property": self.pid, "kind": "obligation", "broken": unexplained,
+            json.dump({"property": self.pid, "kind": "obligation", "broken": unexplained, "seed": self.seed, "tier": self.tier,
                        "note": "a proof obligation or the model/implementation correspondence no longer checks and the search found no concrete failing input",
                        "cmd": "./check %s --tier %s" % (self.pid, self.tier)}, open(p, "w"), indent=1, default=str)
             lines.append("VIOLATION property=%s replay=%s no-failing-input-found" % (self.pid, p))
